@@ -8,7 +8,7 @@
 (* languages reached are exactly well-formed ones.  A second phase adds instances  *)
 (* and links, so one random walk yields a (language, model) pair, which is emitted *)
 (* with the attack graph the specification assigns to it.                          *)
-EXTENDS Sem, Json, IOUtils, TLC
+EXTENDS Sem, LangViews, Json, IOUtils, TLC
 EnvOr(k, d) == IF k \in DOMAIN IOEnv THEN IOEnv[k] ELSE d
 TypePool == {"Ta", "Tb", "Tc", "Td"}
 FieldPool == {"fa", "fb", "fc", "fd", "fe", "ff"}
@@ -136,6 +136,7 @@ LNext ==
 LSpec == LInit /\ [][LNext]_lvars
 
 (* ---- emission ---------------------------------------------------------------- *)
+WithViews == EnvOr("VERIF_VIEWS", "0") = "1"
 GDepth == atoi(EnvOr("VERIF_DEPTH", "28"))
 Order == SetToSeq(Insts)
 InstName(x) == "i" \o ToString(x)
@@ -146,7 +147,10 @@ EmitL == (TLCGet("level") = GDepth /\ lgPhase = "model" /\ Insts # {}) =>
                   assocs |-> [k \in DOMAIN SetToSeq(lgM.links) |->
                                  LET l == SetToSeq(lgM.links)[k] IN
                                  [h |-> 100 + k, cls |-> l.cls, l |-> SetToSeq(l.l), r |-> SetToSeq(l.r), extras |-> 0]],
-                  exp |-> GraphExp(lgL, lgM, Order)]))
+                  exp |-> GraphExp(lgL, lgM, Order),
+                  name |-> "generated",
+                  inv |-> IF WithViews THEN Inventory(lgL) ELSE [types |-> {}, classes |-> {}],
+                  lgexp |-> IF WithViews THEN Expected(lgL) ELSE [assets |-> {}]]))
 \* spec-level: the machine only reaches well-formed languages, and the expected graph is well formed
 GenWellFormed == WellFormed(lgL) /\ (lgPhase = "model" => EdgesWellFormed(lgL, lgM))
 LBound == TLCGet("level") <= GDepth
